@@ -213,57 +213,74 @@ _REBORROW_CALLS = re.compile(r"(ops::DerefMut::deref_mut|convert::AsMut::as_mut|
 
 
 def mut_borrows(fn):
-    """local -> place it mutably borrows (through reborrows `&mut *r`, moves, deref_mut plumbing)."""
+    """local -> [places it may mutably borrow] (through reborrows `&mut *r`, moves, deref_mut plumbing; a local
+    assigned in several match arms — `let slot = match m { "GET" => &mut item.get, .. }` — has several)."""
     c = getattr(fn, "_c08_mutb", None)
     if c is not None:
         return c
     out = {}
-    changed = True
-    rounds = 0
-    while changed and rounds < 8:
-        changed = False
-        rounds += 1
-        for bb, i, st in fn.stmts():
-            if st["pl"]["p"]:
-                continue
-            l = st["pl"]["l"]
-            if l in out:
-                continue
-            rv = st["rv"]
-            tgt = None
-            if rv["rv"] == "ref" and rv.get("mut"):
-                pl = rv["pl"]
-                if pl["p"] and pl["p"][0] == "*" and pl["l"] in out:
-                    base = out[pl["l"]]
-                    tgt = {"l": base["l"], "p": list(base["p"]) + list(pl["p"][1:])}
-                elif not (pl["p"] and pl["p"][0] == "*"):
-                    tgt = pl
-                elif fn.local_ty(pl["l"]).startswith("&") and pl["l"] not in fn.defs():
-                    tgt = pl      # reborrow of a `&mut` parameter: the place behind the parameter
-                elif 1 <= pl["l"] <= fn.argc:
-                    tgt = pl
-            elif rv["rv"] == "use":
-                sl = operand_local(rv["op"])
-                if sl is not None and sl in out:
-                    tgt = out[sl]
-            if tgt is not None:
-                out[l] = tgt
-                changed = True
-        for bb, t in fn.calls():
-            if t["dest"]["p"] or t["dest"]["l"] in out or not t["args"]:
-                continue
-            if _REBORROW_CALLS.search(t.get("callee") or ""):
-                sl = operand_local(t["args"][0])
-                if sl is not None and sl in out:
-                    out[t["dest"]["l"]] = out[sl]
-                    changed = True
-    fn._c08_mutb = out
-    return out
+
+    def add(l, tgt):
+        k = json.dumps(tgt, sort_keys=True)
+        cur = out.setdefault(l, {})
+        if k in cur:
+            return False
+        cur[k] = tgt
+        return True
+    def propagate():
+        changed = True
+        rounds = 0
+        while changed and rounds < 8:
+            changed = False
+            rounds += 1
+            for bb, i, st in fn.stmts():
+                if st["pl"]["p"]:
+                    continue
+                l = st["pl"]["l"]
+                rv = st["rv"]
+                tgts = []
+                if rv["rv"] == "ref" and rv.get("mut"):
+                    pl = rv["pl"]
+                    if pl["p"] and pl["p"][0] == "*" and pl["l"] in out:
+                        tgts = [{"l": base["l"], "p": list(base["p"]) + list(pl["p"][1:])} for base in out[pl["l"]].values()]
+                    elif not (pl["p"] and pl["p"][0] == "*"):
+                        tgts = [pl]
+                    elif pl["l"] not in fn.defs() or 1 <= pl["l"] <= fn.argc:
+                        tgts = [pl]      # reborrow of a `&mut` parameter / captured reference: the place behind it
+                elif rv["rv"] == "use":
+                    sl = operand_local(rv["op"])
+                    if sl is not None and sl in out:
+                        tgts = list(out[sl].values())
+                for tgt in tgts:
+                    if len(out.get(l, ())) < 16 and add(l, tgt):
+                        changed = True
+            for bb, t in fn.calls():
+                if t["dest"]["p"] or not t["args"]:
+                    continue
+                if _REBORROW_CALLS.search(t.get("callee") or ""):
+                    sl = operand_local(t["args"][0])
+                    if sl is not None and sl in out:
+                        for tgt in list(out[sl].values()):
+                            if add(t["dest"]["l"], tgt):
+                                changed = True
+    propagate()
+    # a reborrow through a reference that is itself opaque (the result of a call, a pattern binding): the target is
+    # the place behind that reference, `(*r).field`
+    more = False
+    for bb, i, st in fn.stmts():
+        rv = st["rv"]
+        if not st["pl"]["p"] and rv["rv"] == "ref" and rv.get("mut") and st["pl"]["l"] not in out and rv["pl"]["p"] and rv["pl"]["p"][0] == "*":
+            more = add(st["pl"]["l"], rv["pl"]) or more
+    if more:
+        propagate()
+    res = {l: list(v.values()) for l, v in out.items()}
+    fn._c08_mutb = res
+    return res
 
 
-def _mutators(fn):
+def mutators(fn):
     """[(bb, kind, node, target place, value operands)] — calls taking a `&mut` borrow plus other arguments,
-    and stores through a `&mut` borrow."""
+    and stores through a `&mut` borrow (one entry per possible target of the borrow)."""
     c = getattr(fn, "_c08_mutators", None)
     if c is not None:
         return c
@@ -274,15 +291,16 @@ def _mutators(fn):
             continue
         for st in blk["st"]:
             if st["s"] == "assign" and st["pl"]["p"] and st["pl"]["p"][0] == "*" and st["pl"]["l"] in mb:
-                base = mb[st["pl"]["l"]]
-                out.append((blk["bb"], "store", st, {"l": base["l"], "p": list(base["p"]) + list(st["pl"]["p"][1:])}, _rv_operands(st["rv"])))
+                for base in mb[st["pl"]["l"]]:
+                    out.append((blk["bb"], "store", st, {"l": base["l"], "p": list(base["p"]) + list(st["pl"]["p"][1:])}, _rv_operands(st["rv"])))
         t = blk["term"]
         if t["t"] != "call" or len(t["args"]) < 2:
             continue
         for k, a in enumerate(t["args"]):
             l = operand_local(a)
             if l is not None and l in mb:
-                out.append((blk["bb"], "call", t, mb[l], [x for j, x in enumerate(t["args"]) if j != k]))
+                for base in mb[l]:
+                    out.append((blk["bb"], "call", t, base, [x for j, x in enumerate(t["args"]) if j != k]))
     fn._c08_mutators = out
     return out
 
@@ -292,7 +310,7 @@ def pslice(fn, operand, stop_at_calls=None, mutations=True, max_nodes=8000):
     mut_blocks = set()
     stop_rx = re.compile(stop_at_calls) if stop_at_calls else None
     opaque_rx = re.compile(ACC_OPAQUE)
-    muts = _mutators(fn) if mutations else []
+    muts = mutators(fn) if mutations else []
     seen_calls = set()
 
     def push_pl(pl):
@@ -522,6 +540,7 @@ class Flow:
         self.stop_calls = stop_calls
         self._callers = {}
         self._ctrl = {}
+        self._site_ctx = {}      # closure id -> stack of the functions it was entered from (a closure of an inlined helper is built in several functions)
 
     # -- structure
     def closure_sites(self, g):
@@ -619,7 +638,11 @@ class Flow:
             elif a[0] == "agg":
                 g = self.facts.F.get(a[1]) if isinstance(a[1], str) else None
                 if g is not None and self.is_closure(g):
-                    out.update(self.origins(g, {"l": 0, "p": []}, control, seen, depth + 1))
+                    self._site_ctx.setdefault(g.id, []).append((fn.id, sl.locals()))
+                    try:
+                        out.update(self.origins(g, {"l": 0, "p": []}, control, seen, depth + 1))
+                    finally:
+                        self._site_ctx[g.id].pop()
                 else:
                     out.aggs.add((a[1], a[2]))
             elif a[0] == "param":
@@ -651,11 +674,18 @@ class Flow:
         """Where a parameter's value comes from (data only: control dependence is kept
         intra-procedural so that a sink's controlling predicates are those of its own function)."""
         out = Origins()
+        if self.is_closure(fn) and (fn.raw["id"] in self.entries or (fn.raw["id"], i) in self.root_params):
+            out.roots.add((fn.id, i))       # a closure named as entry: its item / captures are roots, not resolved at the adaptor
+            return out
         if self.is_closure(fn):
             sites = self.closure_sites(fn)
             if not sites:
                 out.roots.add((fn.id, i))
                 return out
+            came_from = (self._site_ctx.get(fn.id) or [None])[-1]
+            if came_from is not None:
+                here = [x for x in sites if x[0].id == came_from[0] and x[2]["pl"]["l"] in came_from[1]]
+                sites = here or sites
             for p, bb, st in sites:
                 if i == 1:
                     k = None
@@ -791,6 +821,44 @@ def field_reads(facts, tw, field_name):
                     if name == field_name:
                         out.append((f, blk["bb"], owner))
     return out
+
+
+def map_stores(flow, f, owner_field, adt_prefix="indexmap::"):
+    """Stores `m[k] = v` into the map found in field `owner_field` = (adt, field): `m.insert(k, v)`,
+    `m.entry(k).or_insert(v)` and `m.entry(k).or_insert_with(|| v)` alike.  Yields (bb, key operand, value operand)."""
+    out = []
+    for bb, t in f.live_calls(r"(indexmap::IndexMap::<K, V, S>|BTreeMap::<K, V, A>|HashMap::<K, V, S, A>)::insert$"):
+        if len(t["args"]) >= 3 and owner_field in flow.origins(f, t["args"][0]).fields:
+            out.append((bb, t["args"][1], t["args"][2]))
+    for bb, t in f.live_calls(r"(indexmap::map::Entry::<'a, K, V>|btree_map::Entry::<'a, K, V, A>|hash_map::Entry::<'a, K, V, A>)::(or_insert|or_insert_with|or_insert_with_key|insert_entry)$"):
+        if len(t["args"]) < 2:
+            continue
+        eo = flow.origins(f, t["args"][0])
+        if owner_field not in eo.fields:
+            continue
+        for c, ebb, et in f.slice(t["args"][0]).calls(r"::entry$"):
+            if len(et["args"]) >= 2:
+                out.append((bb, et["args"][1], t["args"][1]))
+                break
+    return out
+
+
+def root_of(facts, fn):
+    """Outermost named function enclosing a closure; a closure defined in a helper that was inlined belongs to
+    the function(s) the helper was inlined into (the first one, by id, is returned)."""
+    cur = fn
+    for _ in range(12):
+        if cur.raw["kind"] != "Closure":
+            return cur
+        pid = cur.raw.get("parent")
+        p = facts.F.get(pid)
+        if p is None:
+            hosts = sorted((h for h in facts.F.values() if pid in h.raw.get("inlined", [])), key=lambda h: h.id)
+            if not hosts:
+                return cur
+            p = hosts[0]
+        cur = p
+    return cur
 
 
 # --------------------------------------------------------------------------- naming closures of gen_openapi by role
